@@ -482,6 +482,7 @@ func (t *State) PlayAndRepost(blockid []byte, needRepost bool, isRootTx bool) (e
 	if err != nil {
 		return err
 	}
+	verifhook.Yield("play.afterUnconfirm")
 
 	// parallel verify
 	verifyErr := t.verifyBlockTxs(block, isRootTx, unconfirmToConfirm)
@@ -516,6 +517,7 @@ func (t *State) PlayAndRepost(blockid []byte, needRepost bool, isRootTx bool) (e
 	if updateErr != nil {
 		return updateErr
 	}
+	verifhook.Yield("play.beforeWrite")
 	//更新latestBlockid
 	persistErr := t.updateLatestBlockid(block.Blockid, batch, "failed to save block")
 	if persistErr != nil {
